@@ -223,10 +223,23 @@ def _apply_ops(rootA, rootB, ops, tprev):
                 if op['pick'] % 2:
                     e['sums']['SHA256'] = '0' * 64
                 ents.append(e)
+            items = list(datas.items())
+            if (op['pick'] // 2) % 3 == 0:
+                # ... and a second level with a Manifest of its own, referenced by
+                # the first one (a chain of not yet referenced Manifests)
+                ddata = rng.randbytes(rng.choice([1, 50]))
+                de = mtext.file_entry('DATA', 'y0', ddata, ['SHA256'])
+                if op['pick'] % 2:
+                    de['sums']['SHA256'] = '1' * 64
+                dtext = mtext.render([de]).encode()
+                ents.append(mtext.file_entry('MANIFEST', 'deep/Manifest', dtext,
+                                             ['SHA256']))
+                items += [('deep/y0', ddata), ('deep/Manifest', dtext)]
             text = mtext.render(ents)
             for r in (rootA, rootB):
                 os.mkdir(os.path.join(r, dn))
-                for nm, data in list(datas.items()) + [('Manifest', text.encode())]:
+                for nm, data in items + [('Manifest', text.encode())]:
+                    os.makedirs(os.path.dirname(os.path.join(r, dn, nm)), exist_ok=True)
                     with open(os.path.join(r, dn, nm), 'wb') as f:
                         f.write(data)
                     if mt is not None:
